@@ -60,7 +60,25 @@ func construct(checker string, m int) string {
 
 const boolConstructs = `package pb
 
+import "testing"
+
 type T struct{ v int }
+
+type wide struct{ a [64]int64 }
+
+// a unit-test shaped function in an ordinary file (skipTestFuncs looks at the signature, not at the file name)
+func TestRanges(t *testing.T) {
+	ws := make([]wide, 2)
+	n := 0
+	for _, w := range ws {
+		n += int(w.a[0])
+	}
+	var arr [4]wide
+	for _, w := range arr {
+		n += int(w.a[1])
+	}
+	t.Log(n)
+}
 
 func (t *T) n() int { return t.v }
 
@@ -235,7 +253,8 @@ func paramsCmd(args []string) {
 		}
 		if dir == "pb" {
 			for _, bc := range [][2]string{{"captLocal", "paramsOnly"}, {"elseif", "skipBalanced"}, {"underef", "skipRecvDeref"},
-				{"unnamedResult", "checkExported"}, {"truncateCmp", "skipArchDependent"}} {
+				{"unnamedResult", "checkExported"}, {"truncateCmp", "skipArchDependent"},
+				{"rangeValCopy", "skipTestFuncs"}, {"rangeExprCopy", "skipTestFuncs"}} {
 				run(bc[0], bc[1], true, u, 0)
 				run(bc[0], bc[1], false, u, 0)
 			}
